@@ -889,7 +889,7 @@ def _spaces(tier):
     shapes = small + (big if tier == "thorough" else [])
     MODES = ("end", "every")
     h1 = [dict(shp(t), sub="history", ctor="full", init=i, calls=[c], observe=m,
-               pykin=(t[0] * t[1] * t[2] <= 8 and (tier == "thorough" or t == small[0])))
+               pykin=(t[0] * t[1] * t[2] <= 8 and (tier == "thorough" or (t == small[0] and min(c) >= 0))))
           for t in shapes for i in FULL8 for c in ALPHA27 for m in MODES]
     sp.insert(0, ("history1: %d shapes x 8 initial settings x 1 set_boundary_conditions call out of 27 (each axis absent / "
                   "reflecting / periodical) x {observers queried at the end only, after every step}: every observer "
@@ -903,8 +903,8 @@ def _spaces(tier):
         name2 = "history2: (2 shapes x 8 initial settings x 27 x 27 calls + 2 larger shapes x 8 x 8 x 8 full-dict calls) x 2 observation modes"
     else:
         h2 = [dict(shp(t), sub="history", ctor="full", init=i, calls=[c1, c2], observe=m, pykin=False)
-              for t in small for i in FULL8 for c1 in FULL8 for c2 in FULL8 for m in MODES]
-        name2 = "history2: 2 shapes x 8 initial settings x 8 x 8 full-dict calls x 2 observation modes"
+              for t in small[:1] for i in FULL8 for c1 in FULL8 for c2 in FULL8 for m in MODES]
+        name2 = "history2: shape 1x2x3 x 8 initial settings x 8 x 8 full-dict calls x 2 observation modes"
     sp.insert(1, (name2 + ": every observer follows the reported setting", h2, 12))
     cp = [dict(shp(t), sub="copy", init=i, new=j, mode=m, observe=o) for t in shapes for i in FULL8 for j in FULL8
           for m in ("change-copy", "change-original") for o in MODES]
